@@ -25,7 +25,7 @@ def showPairs (l : List (Nat × Nat)) : String :=
     toString k ++ ":" ++ ",".intercalate ((sorted.filter (·.1 == k)).map (fun p => toString p.2))))
 
 def showOut : Out → String
-  | .ok => "ok" | .indexError => "err:IndexError" | .keyError => "err:KeyError"
+  | .ok => "ok" | .indexError => "err" | .keyError => "err"
   | .true => "true" | .false => "false"
 
 def parseTopic (s : String) : Option Topic :=
